@@ -1,6 +1,8 @@
 import EdzedModel.Basic.Val
 import EdzedModel.Counter
+import EdzedModel.Dispatch
 import EdzedModel.Drv.Counter
+import EdzedModel.Drv.Dispatch
 import EdzedModel.Drv.Simulate
 import EdzedModel.Gen.Constants
 import EdzedModel.Simulate
